@@ -427,7 +427,7 @@ class FunctionAnalysis(BaseDomain):
             pfa = self.an._fa.get(self.fn.parent)
             if pfa is None and self.fn.parent not in self.an._inprogress:
                 pfa = self.an.analysis(self.fn.parent)
-            self.outer_env = pfa.flat_env() if pfa is not None else {}
+            self.outer_env = pfa.flat_env(after=self.fn.node) if pfa is not None else {}
         self.interp = Interp(self.node, self)
         self.running = True
         try:
@@ -441,11 +441,32 @@ class FunctionAnalysis(BaseDomain):
             self.pm = parent_map(self.node)
         return self.pm
 
-    def flat_env(self):
+    def flat_env(self, after=None):
+        """values of the locals anywhere in the function; with `after` (a nested def): from the def statement on -- a
+        closure is called after it was created, so what a name held before (an argument that is wrapped and re-bound
+        ahead of the def) is not what the closure sees"""
         env = {}
         if self.interp is None:
             return env
-        for st in list(self.interp.pre.values()) + list(self.interp.post.values()):
+        states = []
+        if after is not None and id(after) in self.interp.post:
+            line = getattr(after, 'lineno', 0)
+            in_loop = False
+            pm = self.parents()
+            cur = after
+            while id(cur) in pm:
+                cur = pm[id(cur)]
+                if isinstance(cur, (ast.For, ast.While)):
+                    in_loop = True
+            if not in_loop:
+                states.append(self.interp.post[id(after)])
+                for k, st in self.interp.pre.items():
+                    n = self.interp.nodes.get(k)
+                    if n is not None and getattr(n, 'lineno', 0) > line:
+                        states.append(st)
+        if not states:
+            states = list(self.interp.pre.values()) + list(self.interp.post.values())
+        for st in states:
             if st is None:
                 continue
             for k, v in st.items():
